@@ -812,7 +812,19 @@ def explore(unit_fn, name, opts=None, max_paths=4000):
             res.error = ("unsupported", f"{e} [path {''.join('T' if x else 'F' for x in ctx.path())}]")
         except Exception as e:  # noqa: BLE001 - a crash of harness or shim is a checker error, reported as such
             import traceback
-            res.error = ("crash", traceback.format_exc(limit=12))
+            tb = e.__traceback__
+            last = None
+            while tb is not None:
+                last = tb
+                tb = tb.tb_next
+            where = last.tb_frame.f_code.co_filename if last is not None else ""
+            if isinstance(e, (KeyError, IndexError, AttributeError, TypeError)) and "/contracts/" in where.replace("\\", "/"):
+                # the sidecar contract itself tripped over state the changed code no longer produces (a log entry that was never
+                # made, a result of another type): the contract has to be restated - undecided, neither a violation nor a crash
+                res.error = ("unsupported", f"the contract harness could not follow the code ({type(e).__name__}: {e} at "
+                                            f"{where.rsplit('/', 1)[-1]}:{last.tb_lineno}) [path {''.join('T' if x else 'F' for x in ctx.path())}]")
+            else:
+                res.error = ("crash", traceback.format_exc(limit=12))
         finally:
             Ctx.cur = None
         res.paths += 1
